@@ -225,8 +225,11 @@ func readCompactLogFile(name string, info *CompactedFileInfo) error {
 	}
 
 	if err = info.unmarshal(buf); err != nil {
+		// The trailer is only a byte pattern: a write that was cut short can end with it by
+		// accident (the bytes may occur in the measurement name). A body that does not parse
+		// is an incomplete log, not a reason to refuse to open the shard.
 		log.Error("unmarshal compact log fail", zap.String("name", name), zap.Error(err))
-		return err
+		return ErrDirtyLog
 	}
 
 	return nil
